@@ -134,6 +134,14 @@ def run_for_property(prop, repo):
         if status in ("FLAGGED", "BROKE-ANALYSIS"):
             failed = True
             lines.append(f"SELFTEST-FAIL property={prop} benign variant {bid} must stay silent but check {status}: {det[:1]}")
+    # the loader's own transformations (helper expansion, restoration of renamed / moved / inlined reference functions) on synthetic programs
+    import subprocess
+    tools = os.path.join(os.path.dirname(os.path.dirname(os.path.abspath(__file__))), "tools")
+    for script, marker in (("test_inline.py", "INLINE-SELFTEST OK"), ("test_restore.py", "RESTORE-SELFTEST OK")):
+        r = subprocess.run([sys.executable, os.path.join(tools, script)], capture_output=True, text=True)
+        if marker not in r.stdout:
+            failed = True
+            lines.append(f"SELFTEST-FAIL property={prop} loader self-test {script} failed: {(r.stdout + r.stderr).strip().splitlines()[-1:]}")
     fired = sum(1 for _, s, _ in res_m if s == "fired")
     silent = sum(1 for _, s, _ in res_b if s in ("silent", "known-inconclusive"))
     stale = sum(1 for _, s, _ in res_m + res_b if s == "stale")
